@@ -481,6 +481,16 @@ class Interp:
                 raise LeaveDomain("path explosion")
             try:
                 for (nbb, nenv, nsg, ncons, nexcl, ret) in self.step(body, bb, env, sg, cons, excl, depth):
+                    # a path that left a switch through `otherwise` carries "value not in {listed}": once later case splits
+                    # have fixed the value's bits to a listed one, the path is infeasible
+                    dead = False
+                    for (xb, xvals) in nexcl:
+                        xs = xb.subst(nsg) if isinstance(xb, BV) else xb
+                        if isinstance(xs, BV) and xs.is_const() and xs.value() in xvals:
+                            dead = True
+                            break
+                    if dead:
+                        continue
                     if ret is not None:
                         outs.append(Outcome(nsg, ncons, nexcl, subst_value(ret, nsg)))
                     else:
@@ -538,13 +548,14 @@ class Interp:
             return BV.const(1, False, int(k["bits"]))
         if k["ty"] == "()":
             return Tup([])
-        m = re.match(r"^&?std::ops::RangeInclusive<(u8|u16|u32|u64|usize)>$", k["ty"])
+        m = re.match(r"^&?std::ops::RangeInclusive<([ui])(8|16|32|64|size)>$", k["ty"])
         if m and k.get("alloc"):
-            w = {"u8": 1, "u16": 2, "u32": 4, "u64": 8, "usize": 8}[m.group(1)]
+            w = 8 if m.group(2) == "size" else int(m.group(2)) // 8
+            sgn = m.group(1) == "i"
             raw = bytes.fromhex(k["alloc"])
             lo = int.from_bytes(raw[0:w], "little")
             hi = int.from_bytes(raw[w:2 * w], "little")
-            v = Enum("std::ops::RangeInclusive", "RangeInclusive", {"start": BV.const(8 * w, False, lo), "end": BV.const(8 * w, False, hi)})
+            v = Enum("std::ops::RangeInclusive", "RangeInclusive", {"start": BV.const(8 * w, sgn, lo), "end": BV.const(8 * w, sgn, hi)})
             return Ref(v) if k["ty"].startswith("&") else v
         return Opaque("const %s" % (k.get("ev") or k.get("s")))
 
